@@ -477,6 +477,9 @@ FullClauses(s, m, sn) ==
                 refusedNow == sn.refused > 0
                 md2 == UpdMem(md, r)
             IN  (IF r.pn # md.n \/ r.hp # (IF md.n = 0 THEN r.hp ELSE md.hd) THEN {"C02_HistoryAppendOnly"} ELSE {})
+           \* C06 "once inactive ... its history never changes": recorded generations of a stopped deme were altered
+           \cup (IF (r.pn # md.n \/ r.hp # (IF md.n = 0 THEN r.hp ELSE md.hd)) /\ r.id \in Ids(s) /\ ~s.D[r.id].active
+                 THEN {"C06_InactiveFrozen"} ELSE {})
            \cup (IF NonEmptyGens(r.new) \/ s.cfg.levels[r.lix + 1].eng = "LOCAL"
                  THEN GenClauses(s, [r EXCEPT !.new = SelectSeq(r.new, LAMBDA g : g # <<>>)], md, refusedNow)
                  ELSE {"C12_PopSize"})
